@@ -229,18 +229,12 @@ func kindObjs(k string) []gen.Obj {
 	return co.OCSPs
 }
 
-func TestC03(t *testing.T) {
-	rec := newRec(t, "C03")
+// forEachBoundaryCase enumerates: every lint with a dated boundary x K of its
+// home objects x {eff, ineff} x {-1 s, 0, +1 s} x time forms (this shard's share).
+func forEachBoundaryCase(rec *stats.Rec, K int, forms []gen.TimeForm, fn func(k int, l regLint, o gen.Obj, at time.Time, fi int, f gen.TimeForm)) {
 	hm := homeObjects()
 	reg := registryLints(lint.GlobalRegistry())
 	sort.Slice(reg, func(i, j int) bool { return reg[i].Name < reg[j].Name })
-	K := stats.Scale(2, 12)
-	forms := []gen.TimeForm{gen.UTCZ, gen.GenZ}
-	if stats.Thorough() {
-		forms = []gen.TimeForm{gen.UTCZ, gen.GenZ, gen.UTCPlus, gen.UTCMinus}
-	}
-	zones := []string{"", "P14", "M12", "P0530"}
-	// (a) boundary sweep, enumerated
 	k := 0
 	for _, l := range reg {
 		hs := hm[l.Name]
@@ -271,29 +265,42 @@ func TestC03(t *testing.T) {
 						if !stats.Mine(k) {
 							continue
 						}
-						at := b.Add(d)
-						c, ok := redatedCase(o, at, f)
-						if !ok {
-							rec.Class("redate_failed")
-							continue
-						}
-						cc := c03Case{Case: c, Instant: at.UTC().Format(time.RFC3339), Form: f.String(), Lint: l.Name, InZone: zones[(k+fi)%len(zones)]}
-						// only the targeted lint plus the rest of the registry: full registry
-						rec.Eval()
-						rec.Class("directed")
-						if sig, msg := judgeC03(rec, cc); msg != "" {
-							if rec.Report("c03", sig, msg, cc) {
-								t.Fatalf("c03 directed %s on %s at %s (%s): %s: %s", l.Name, o.Name, cc.Instant, f, sig, msg)
-							}
-						} else if rec.WantSample() && k%37 == 0 {
-							rec.Sample(map[string]interface{}{"lint": l.Name, "base": o.Name, "instant": cc.Instant, "form": cc.Form, "zone": cc.InZone,
-								"effective": fmtDate(l.Meta.EffectiveDate), "ineffective": fmtDate(l.Meta.IneffectiveDate)})
-						}
+						fn(k, l, o, b.Add(d), fi, f)
 					}
 				}
 			}
 		}
 	}
+}
+
+func TestC03(t *testing.T) {
+	rec := newRec(t, "C03")
+	K := stats.Scale(2, 12)
+	forms := []gen.TimeForm{gen.UTCZ, gen.GenZ}
+	if stats.Thorough() {
+		forms = []gen.TimeForm{gen.UTCZ, gen.GenZ, gen.UTCPlus, gen.UTCMinus}
+	}
+	zones := []string{"", "P14", "M12", "P0530"}
+	// (a) boundary sweep, enumerated
+	forEachBoundaryCase(rec, K, forms, func(k int, l regLint, o gen.Obj, at time.Time, fi int, f gen.TimeForm) {
+		c, ok := redatedCase(o, at, f)
+		if !ok {
+			rec.Class("redate_failed")
+			return
+		}
+		cc := c03Case{Case: c, Instant: at.UTC().Format(time.RFC3339), Form: f.String(), Lint: l.Name, InZone: zones[(k+fi)%len(zones)]}
+		// the targeted lint plus the rest of the registry are judged
+		rec.Eval()
+		rec.Class("directed")
+		if sig, msg := judgeC03(rec, cc); msg != "" {
+			if rec.Report("c03", sig, msg, cc) {
+				t.Fatalf("c03 directed %s on %s at %s (%s): %s: %s", l.Name, o.Name, cc.Instant, f, sig, msg)
+			}
+		} else if rec.WantSample() && k%37 == 0 {
+			rec.Sample(map[string]interface{}{"lint": l.Name, "base": o.Name, "instant": cc.Instant, "form": cc.Form, "zone": cc.InZone,
+				"effective": fmtDate(l.Meta.EffectiveDate), "ineffective": fmtDate(l.Meta.IneffectiveDate)})
+		}
+	})
 	rec.Exhaustive("boundary-sweep(lints x K homes x 6 instants x forms)", true)
 	// (b) random: any generated object re-dated by the openers / uniform
 	rapidRun(t, "random", perShard(stats.Scale(10000, 300000)), func(rt *rapid.T) {
